@@ -148,6 +148,8 @@ Definition tzlit_chk (n : Z) : bool :=
 Lemma tzlit_chk_all : all_below 14 10000 tzlit_chk = true.
 Proof. vm_compute. reflexivity. Qed.
 
+Lemma implb_elim a x : implb (negb a) x = true -> a = false -> x = true.
+Proof. intros H E. subst a. exact H. Qed.
 Lemma at_end_shape r : at_end r = true -> r = [] \/ r = ["010"%char].
 Proof.
   destruct r as [|c [|? ?]]; cbn; try discriminate; auto.
@@ -162,11 +164,11 @@ Lemma tz_group_shape r g t : tz_group_end r = Some g -> parse_tzinfo g = Ok t ->
                   matches (opt tz_re) core = true.
 Proof.
   unfold tz_group_end. destruct (at_end r) eqn:E0.
-  - intros _ _. exists [], r. split; [reflexivity|]. split; [apply at_end_ws, E0|]. split; reflexivity.
+  - intros _ _. exists [], r. split; [reflexivity|]. split; [apply at_end_ws, E0|]. split; vm_compute; reflexivity.
   - destruct r as [|c r0]; [discriminate|].
     destruct (ceq c "Z" && at_end r0) eqn:EZ.
     + apply andb_true_iff in EZ as [EZ1 EZ2]. apply ceq_eq in EZ1. subst c.
-      intros _ _. exists ["Z"%char], r0. split; [reflexivity|]. split; [apply at_end_ws, EZ2|]. split; reflexivity.
+      intros _ _. exists ["Z"%char], r0. split; [reflexivity|]. split; [apply at_end_ws, EZ2|]. split; vm_compute; reflexivity.
     + destruct r0 as [|h1 [|h2 [|col [|m1 [|m2 r']]]]]; try discriminate.
       destruct (is_sign c && is_digit h1 && is_digit h2 && ceq col ":" && is_digit m1 && is_digit m2 && at_end r') eqn:C;
         [|discriminate].
@@ -184,12 +186,12 @@ Proof.
         assert (Hm : forallb is_digit (d2 mm) = true) by (rewrite <- Em; cbn [forallb]; rewrite Hm1, Hm2; reflexivity).
         change (c :: d2 hh ++ ":"%char :: d2 mm) with ([c] ++ d2 hh ++ [":"%char] ++ d2 mm).
         rewrite !no_ws_app, (digits_no_ws _ Hh), (digits_no_ws _ Hm).
-        unfold is_sign in C. apply orb_true_iff in C as [C|C]; apply ceq_eq in C; subst c; reflexivity.
+        unfold is_sign in C. apply orb_true_iff in C as [C|C]; apply ceq_eq in C; subst c; vm_compute; reflexivity.
       * pose proof (all_below_spec 14 10000 tzlit_chk tzlit_chk_all ltac:(cbn; lia) (hh * 100 + mm) ltac:(lia)) as K.
         unfold tzlit_chk in K. cbv zeta in K.
         replace ((hh * 100 + mm) / 100) with hh in K by (apply (Z.div_unique _ 100 hh mm); lia).
         replace ((hh * 100 + mm) mod 100) with mm in K by (apply (Z.mod_unique _ 100 hh mm); lia).
-        rewrite B in K. cbn [negb implb] in K. apply andb_true_iff in K as [K1 K2].
+        apply (implb_elim _ _ K) in B. apply andb_true_iff in B as [K1 K2].
         apply m_opt_some.
-        unfold is_sign in C. apply orb_true_iff in C as [C|C]; apply ceq_eq in C; subst c; assumption.
+        unfold is_sign in C. apply orb_true_iff in C as [C|C]; apply ceq_eq in C; subst c; [exact K1|exact K2].
 Qed.
